@@ -308,6 +308,12 @@ def _tail(case, w, c, acc, one, kind):
                 t.estimate = 7 + k
             elif op == 'remove':
                 side.remove(t)
+            elif op == 'remove_other':
+                # asked to remove a task that belongs to the other side (a nested one as a rule): not its business
+                ots = list(other.tasks)
+                deep = [q for q in ots if q.parent is not None] or ots
+                if deep:
+                    side.remove(deep[step[1] % len(deep)])
             elif op == 'link':
                 t.predecessors.append(x)
             elif op == 'unlink':
@@ -333,7 +339,7 @@ def _tail(case, w, c, acc, one, kind):
             return
 
 
-TAIL_OPS = ['rename', 'attr', 'estimate', 'remove', 'link', 'unlink', 'append', 'reparent', 'sort', 'wattr', 'clear_links']
+TAIL_OPS = ['rename', 'attr', 'estimate', 'remove', 'link', 'unlink', 'append', 'reparent', 'sort', 'wattr', 'clear_links', 'remove_other']
 
 
 def gen_case(rnd, tier='quick'):
